@@ -7,7 +7,7 @@ META = dict(
           'entry points, guest functions and callbacks; all schedules with at most 2 preemptions for two threads and 1 for three threads (thorough: 3 and 2) are enumerated depth-first (choice 0 = keep '
           'running). Oracle per schedule: each thread\'s observation sequence equals its solo run; no deadlock; no vector-clock race on the RLBOX_VERIF_SHARED accesses '
           'to the process-wide sandbox list; a replayed prefix that does not fit is a hard error. Backends: mbox in registry mode (the list is on the hot path of every '
-          'pointer translation) and noop (thread_local record). states/transitions = scheduling points executed, traces = complete schedules.'),
+          'pointer translation) and noop (thread_local record, library-provided and embedder-provided). states/transitions = scheduling points executed, traces = complete schedules.'),
     assumptions=['2-3 threads, preemption bound 1-3, fixed scripts - not the "2..16 threads, random sequences" of the quantifier text',
                  'unsynchronised accesses that are neither annotated nor separated by a yield are invisible to a cooperative scheduler; the free-running ThreadSanitizer supplement (thorough tier) looks for those and is not a deciding step',
                  'weak-memory behaviour of the status atomic is not modelled'],
@@ -17,15 +17,17 @@ META = dict(
 def run(ctx):
     specs = [('c18_mbox', 'c18.cpp', dict(opt='-O1', hooks=True, access=True)),
              ('c18_noop', 'c18.cpp', dict(opt='-O1', hooks=True, access=True, defs=['C18_NOOP'])),
+             # the embedder-provided per-thread record (RLBOX_EMBEDDER_PROVIDES_TLS_STATIC_VARIABLES + the backend's STATIC_VARIABLES macro)
+             ('c18_noop_etls', 'c18.cpp', dict(opt='-O1', hooks=True, access=True, defs=['C18_NOOP', 'BK_EMBEDDER_TLS'])),
              # the library's DEFAULT lock macros (std shared mutex), scheduled by interposing the pthread rwlock operations they end in
              ('c18_mbox_deflock', 'c18.cpp', dict(opt='-O1', hooks=True, access=True, defs=['VS_DEFAULT_LOCKS'], link=['-ldl']))]
     if ctx.thorough:
         specs.append(('c18_tsan', 'c18_tsan.cpp', dict(opt='-O1', hooks=False, access=False, compiler='clang++', flags=['-fsanitize=thread', '-g'])))
     bins = ctx.build_many(specs)
     if ctx.thorough:
-        plan = [('c18_mbox', 2, 3, 2), ('c18_noop', 2, 3, 2), ('c18_mbox', 3, 2, 1), ('c18_noop', 3, 2, 1), ('c18_mbox_deflock', 2, 2, 2), ('c18_mbox_deflock', 3, 2, 1)]
+        plan = [('c18_mbox', 2, 3, 2), ('c18_noop', 2, 3, 2), ('c18_mbox', 3, 2, 1), ('c18_noop', 3, 2, 1), ('c18_mbox_deflock', 2, 2, 2), ('c18_mbox_deflock', 3, 2, 1), ('c18_noop_etls', 2, 3, 2), ('c18_noop_etls', 3, 2, 1)]
     else:
-        plan = [('c18_mbox', 2, 2, 2), ('c18_noop', 2, 2, 2), ('c18_mbox', 3, 1, 1), ('c18_noop', 3, 1, 1), ('c18_mbox_deflock', 2, 2, 1)]
+        plan = [('c18_mbox', 2, 2, 2), ('c18_noop', 2, 2, 2), ('c18_mbox', 3, 1, 1), ('c18_noop', 3, 1, 1), ('c18_mbox_deflock', 2, 2, 1), ('c18_noop_etls', 2, 2, 2)]
     for b, th, bound, ln in plan:
         ctx.run(bins[b], ['--threads', th, '--bound', bound, '--len', ln])
     if ctx.thorough:
